@@ -6,9 +6,9 @@ Definition Fn (c : addr) (f : N) (a : list val) : func := {| f_contract := c; f_
 Definition En (w : addr) (r : func) (s : list func) : entry := {| en_who := w; en_root := r; en_subs := s |}.
 Definition TO (t : Z) (b : list Z) (a : list (list (Z * Z))) : tokobs := {| ob_total := t; ob_bal := b; ob_alw := a |}.
 Definition Ob (nw : Z) (tk : list tokobs) (cnt : N) (en : list (option addr)) (past : option addr)
-  (ix : list (option N)) (al : list bool) (flc : N) (lg : list (list logent)) : obs :=
+  (ix : list (option N)) (al : list bool) (flc : N) (lg : list (list logent)) (ex mg : list bool) : obs :=
   {| o_now := nw; o_toks := tk; o_count := cnt; o_enum := en; o_past := past; o_idx := ix;
-     o_allowed := al; o_flcount := flc; o_logs := lg |}.
+     o_allowed := al; o_flcount := flc; o_logs := lg; o_exec := ex; o_mgr := mg |}.
 Definition Cf (mn mx start : Z) (fp fl : addr) (ex mg tk tg ho ow sp ca : list addr) : cfg :=
   {| c_host := {| min_temp_ttl := mn; max_ttl := mx |}; c_start := start; c_fp := fp; c_fl := fl;
      c_executors := ex; c_managers := mg; c_tokens := tk; c_targets := tg;
@@ -30,7 +30,8 @@ Definition obs_eqb (x y : obs) : bool :=
   && N.eqb (o_count x) (o_count y) && list_eqb (opt_eqb N.eqb) (o_enum x) (o_enum y)
   && opt_eqb N.eqb (o_past x) (o_past y) && list_eqb (opt_eqb N.eqb) (o_idx x) (o_idx y)
   && list_eqb Bool.eqb (o_allowed x) (o_allowed y) && N.eqb (o_flcount x) (o_flcount y)
-  && list_eqb (list_eqb logent_eqb) (o_logs x) (o_logs y).
+  && list_eqb (list_eqb logent_eqb) (o_logs x) (o_logs y)
+  && list_eqb Bool.eqb (o_exec x) (o_exec y) && list_eqb Bool.eqb (o_mgr x) (o_mgr y).
 Definition out_eqb (x y : res Z) : bool :=
   match x, y with Ok a, Ok b => a =? b | Fail, Fail => true | _, _ => false end.
 
@@ -107,7 +108,11 @@ Definition al_consistent (c : cfg) (S : list addr) (o : obs) : bool :=
   && all3 (fun t ix al => opt_eqb N.eqb ix (find_index t ts 0%N)
                           && Bool.eqb al (N.eqb (o_count o) 0 || memb t ts))
           (c_cands c) (o_idx o) (o_allowed o)
-  && N.eqb (o_flcount o) 0.
+  && N.eqb (o_flcount o) 0
+  (* the roles granted at construction are still there (and nobody else has them): stored state
+     holds until explicitly changed, however many ledgers pass *)
+  && list_eqb Bool.eqb (o_exec o) (map (fun h => memb h (c_executors c)) (c_holders c))
+  && list_eqb Bool.eqb (o_mgr o) (map (fun h => memb h (c_managers c)) (c_holders c)).
 
 (* ---- per call ---- *)
 (* an allowance with a positive amount survives exactly until its live_until ledger *)
